@@ -4,7 +4,7 @@
    (persistent = true: Bolt; false: local; eff_req false _ = NoReq: the local transport replays nothing), with full
    retention. For the local transport the "commit order" is the order of the fan-out critical sections and hs_cut
    the (ghost) position in it at which the subscriber was indexed. *)
-From Mercure Require Import Base Hub HubProofs4 HubProofs7 HubProofs8.
+From Mercure Require Import Base Hub SubLts HubProofs4 HubProofs7 HubProofs8 SubOrderProofs.
 
 (* while a subscriber is live and has not been cut off, it has been sent - after its replay - exactly the matching
    updates committed after its registration, each once, in commit order *)
@@ -80,6 +80,39 @@ Theorem C06_commit_order_respects_real_time :
   exists l1 l2 l3, h_committed (w_st w') = l1 ++ u :: l2 ++ v :: l3.
 Proof. exact commit_order_respects_real_time. Qed.
 Print Assumptions C06_commit_order_respects_real_time.
+
+(* The same at the granularity of single lock, atomic and channel operations of localsubscriber.go (Model/SubLts.v), under
+   the hub's usage pattern (usage): thread ip dispatches the live updates ids one after the other, thread ir replays the
+   history hs and then calls Ready (wr) once, every other thread only disconnects or consumes; any schedule.
+   L is the sequence of live updates placed so far - queued, being flushed by Ready, or sent: it is always a prefix of
+   ids (dispatch order, nothing twice); and once Ready has completed, unless the subscriber was cut off, everything
+   dispatched except the update in flight has been sent (SP: the publisher's updates in the sent sequence). *)
+Theorem C06_fine_grained_order_and_no_loss :
+  forall (ids : list N) (ip ir capacity : nat) progs hs wr sched,
+  usage ids ip ir progs hs wr ->
+  let s := run (init capacity progs) sched in
+  (exists rest, ids = L ids ir s ++ rest) /\
+  (forall thp, nth_error (threads s) ip = Some thp -> ready s = true -> disc s = false -> t_pc thp <> F1 ->
+     ids = SP ids s ++ unplaced (t_pc thp) ++ live_ids (t_todo thp)) /\
+  (forall thp, nth_error (threads s) ip = Some thp -> ready s = true -> disc s = false -> t_pc thp = Idle -> t_todo thp = [] ->
+     SP ids s = ids).
+Proof. exact order_and_no_loss. Qed.
+Print Assumptions C06_fine_grained_order_and_no_loss.
+
+Example C06_nonvacuous_fine_grained :
+  (* publisher, registering thread (two history updates, then Ready) and a consumer, round-robin *)
+  let progs := [[ODispatch 1 false; ODispatch 2 false; ODispatch 3 false]; [ODispatch 101 true; ODispatch 102 true; OReady]; [ORecv; ORecv]] in
+  usage [1; 2; 3] 0 1 progs [101; 102] true /\
+  let s := run (init 10 progs) (concat (repeat [0; 1; 2]%nat 60)) in
+  ready s = true /\ disc s = false /\ SP [1; 2; 3] s = [1; 2; 3] /\ sent s = [101; 102; 1; 2; 3] /\ recvd s = [101; 102].
+Proof.
+  split.
+  - unfold usage. repeat split; try reflexivity; try discriminate.
+    + repeat constructor; cbn; intuition discriminate.
+    + intros u [<-|[<-|[]]]; reflexivity.
+    + intros j prog Hj Hp Hr. destruct j as [|[|[|j]]]; try contradiction; cbn in Hj; [inversion Hj; reflexivity|destruct j; discriminate].
+  - vm_compute. repeat split; reflexivity.
+Qed.
 
 Example C06_nonvacuous_local :
   (* the local transport: a subscriber asking for "earliest" gets only what is dispatched after its registration *)
